@@ -51,6 +51,19 @@ pub fn vp_take_first<T>(v: Vec<T>) -> (r: Vec<T>)
 pub fn vp_extend<T>(a: &mut Vec<T>, b: Vec<T>)
     ensures final(a)@ == old(a)@ + b@
 { a.extend(b) }
+pub open spec fn spec_sum_u64(s: Seq<u64>) -> int
+    decreases s.len()
+{ if s.len() == 0 { 0 } else { spec_sum_u64(s.drop_last()) + s.last() } }
+pub proof fn lemma_sum_u64_nonneg(s: Seq<u64>)
+    ensures spec_sum_u64(s) >= 0
+    decreases s.len()
+{ if s.len() > 0 { lemma_sum_u64_nonneg(s.drop_last()); } }
+/// `v.iter().sum()` on u64 (iterator adapters are outside Verus' std specs)
+#[verifier::external_body]
+pub fn vp_sum_u64(v: &Vec<u64>) -> (r: u64)
+    requires spec_sum_u64(v@) <= u64::MAX
+    ensures r == spec_sum_u64(v@)
+{ v.iter().sum() }
 #[verifier::external_type_specification]
 #[verifier::external_body]
 pub struct ExIoError(std::io::Error);
